@@ -23,7 +23,7 @@ claim('C19', 'other',
       "standards x both header variants on the corner combinations; thorough: 2 compilers x 4 standards x 2 variants x "
       "all combinations); the shipped single header is byte-identical to a fresh tools/join.py run and to an independent "
       "re-implementation of the merge; per-feature differential comparison of the extracted facts shows that switching a "
-      "feature on only adds code that touches feature-owned state.",
+      "feature on only adds code that touches feature-owned state; the logging differential of C16 (bodies identical after erasing exactly the log statements) is an obligation here too.",
       "Trusted: clang 14 / gcc 12 front ends; witness w_core as the set of API uses that must compile. 'Observable "
       "behaviour unchanged' is decided as 'the feature-neutral functions have identical event summaries', not by running.",
       "feature-matrix type checking + byte-level translation validation of the amalgamation + differential AST facts",
@@ -35,7 +35,7 @@ claim('C07', 'other',
       "payloadSet and placement-copy their payload parameter; no user-declared copy operations, so copies are memberwise; "
       "payload() returns the storage iff payloadSet; the whole-object copy chain request -> pending -> current -> previous "
       "as must-equalities (flow clause). Equality of payload bytes for every value is NOT decided (language-level "
-      "memberwise copy is trusted). Every request writer replaces the whole request object, so no payload flag or bytes of an earlier request survive in the slot (C07.f).",
+      "memberwise copy is trusted). Every request writer replaces the whole request object, so no payload flag or bytes of an earlier request survive in the slot (C07.f). The payload type configured with Config::PayloadT survives every order of the configuration setters (C07.g, 120 permutations, type-level).",
       "Trusted: clang's record layout for the x86-64 target of this sandbox; witness w_pay as the family of payload types.",
       "type-level layout facts + evaluated constructors (delegation, placement-new) + must-equality dataflow + comparison-domain evaluation of the drop predicate",
       "DESIGN.md section 4 C07")
@@ -46,7 +46,7 @@ claim('C14', 'proof',
       "template walker over the CS_ tree reached from R_::Apex shows every leaf k wraps S_k with STATE_ID == PRONG_INDEX "
       "== k and every split node partitions its range at R_PRONG; a structural rule over every instantiated CS_ "
       "dispatcher (branch on prong < R_PRONG, true->left, false->right, same kind, arguments unchanged) closes the "
-      "induction that wideX(control,k) reaches exactly leaf k; access<T>() is a derived-to-base conversion of the apex.",
+      "induction that wideX(control,k) reaches exactly leaf k; access<T>() is a derived-to-base conversion of the apex; library code never copy- or move-constructs a state object, so callbacks run on the object access<T>() names (C14.e).",
       "Trusted: clang 14 / gcc 12 template instantiation and constant evaluation; the walker templates in gen/nfamily.py.",
       "static_assert obligations discharged by two compiler front ends + AST shape rule on dispatchers + flow rule for initial/requested prong",
       "DESIGN.md section 4 C14")
@@ -55,7 +55,7 @@ claim('C15', 'other',
       "Order rule on the CFGs of the instantiated S_ wrappers and A_ dispatchers: for states with 0..3 injections the "
       "flattened sequence of resolved user callbacks is I1..Ik,state for set-up kinds and state,Ik..I1 for "
       "exit/postUpdate/postReact, each exactly once and unconditionally; the two A_ patterns and the S_ wrappers are "
-      "checked as an induction step so every k is covered.",
+      "checked as an induction step so every k is covered; every user callback is invoked through a qualified name, so no virtual override can reorder or replace a step (C15.c).",
       "Trusted: clang's overload resolution of Head::X / First::X; witness w_inj.",
       "CFG dominance-order rule over resolved callees + structural induction over template patterns",
       "DESIGN.md section 4 C15")
@@ -64,7 +64,7 @@ claim('C17', 'other',
       "Decides the statement through its only possible causes in code of this shape: every scalar member of every FFSM2 "
       "record is definitely initialised by every constructor; hand-written copy/move constructors copy every base and "
       "member from the same base/member; copy/move construction of an automatically activated machine cannot reach "
-      "initialEnter; no mutable static state and no non-deterministic external call. Equality of two executions as such "
+      "initialEnter; no mutable static state and no non-deterministic external call. No value depends on an address (no pointer<->integer casts, pointer ordering or identity tests other than null, C17.e); user bases of states are covered by the copy rule. Equality of two executions as such "
       "is not decided.",
       "Trusted: clang's constructor-initialiser lists incl. implicit ones; witnesses w_core/w_pay instantiate every class.",
       "definite-initialisation and copy-coverage rules over record/constructor facts + call-graph reachability",
@@ -75,7 +75,7 @@ claim('C01', 'other',
       "automaton) of every entry point that can reach a dispatcher (update, react, immediate*, replay*, load, enter/exit, "
       "constructors, destructor; both activation modes; all witness machines) shows enter/exit/reenter pairing, root before/"
       "after, dispatch only to the active state and the activity invariant at return; who-may-call and who-may-write rules "
-      "close the induction; no control flavour can write the registry. The load rule's precondition (the index read was written by save()) is discharged by the save/load field-table and clear-before-write obligations (C01.f).",
+      "close the induction; no control flavour can write the registry. The load rule's precondition (the index read was written by save()) is discharged by the save/load field-table and clear-before-write obligations (C01.f). Deactivation resets (final exit, destructor) are writers of the activity state and are part of the who-may-write table (C01.b).",
       "Assumes A1-A3 (callbacks act only through their control, do not re-enter the API, preconditions respected). Machine "
       "size is abstracted by the dispatch primitive, whose correctness for every size is C14.",
       "finite-domain abstract interpretation (typestate) + call-graph / effect-set rules",
@@ -95,7 +95,7 @@ claim('C03', 'other',
       "Guard rounds interpreted with both outcomes at every guard: exit guard first on the active state, entry guard on the "
       "requested state, nothing consulted after a cancellation, fresh guard control per round bound to (current, pending), "
       "acceptance only on the not-cancelled edge; guard evaluation cannot reach enter/exit/reenter nor write the registry; "
-      "replay/load never reach guards; the wrappers' return expression is checked on its truth table.",
+      "replay/load never reach guards; the wrappers' return expression is decided on the enumeration (flag at entry) x (which user callback cancels), C03.e.",
       "Assumes A1-A3.",
       "abstract interpretation with observer automaton + call-graph reachability + statement-wise evaluation of the wrappers on the (flag before, flag after) truth table",
       "DESIGN.md section 4 C03")
@@ -104,7 +104,7 @@ claim('C04', 'other',
       "Counted-loop rule on both substitution loops (bound == configured limit for limits 1,2,3,4,255; single increment; one "
       "guard round per iteration; 8-bit counter cannot wrap), acyclic call graph, every other loop classified, end state at "
       "the limit covered by the C02.d/C01.a interpretation (loop exit edge with a request still outstanding), leftover request "
-      "only consumable through the guarded loops.",
+      "only consumable through the guarded loops. The configured substitution limit survives every order of the configuration setters (C04.e, type-level).",
       "Termination of the plan-list walks rests on list integrity (C10 residue).",
       "spelling-independent bounded-loop analysis (local counter, +1 on every iterating path, constant bound) + call-graph acyclicity + abstract interpretation",
       "DESIGN.md section 4 C04")
@@ -122,7 +122,7 @@ claim('C06', 'other',
       "Scoped-origin rule on every S_ wrapper (constructed from (control, STATE_ID) before and destroyed after the user code), "
       "accessor return paths, constructor reference bindings of every control to the instance core, role tracking of the "
       "pending/current transition objects into _pendingTransition/_currentTransition, exhaustive comparison-domain evaluation of "
-      "every isActive(id) against active == id, request writers record _originId.",
+      "every isActive(id) against active == id for every id including the invalid one (C06.d), request writers record _originId.",
       "Assumes A2. The comparison-domain evaluation is exhaustive because the checker first verifies the predicates only compare.",
       "CFG order rules + reference-binding facts + finite comparison-domain evaluation + flow rules for the pending/current views",
       "DESIGN.md section 4 C06")
@@ -131,7 +131,7 @@ claim('C11', 'other',
       "Writers of previousTransition are the expected ones; at return of every processing entry point the history equals the "
       "accepted transition field by field and names the active state (must-equality dataflow); replayTransition/replayEnter "
       "enter exactly the replayed destination without guards and record it; replayTransition(invalid) returns false with no "
-      "dispatch; copy/move constructors copy the history.",
+      "dispatch; copy/move constructors copy the history; a processing step in which nothing was accepted leaves an empty history (C11.b idle step).",
       "Assumes A1-A3.",
       "effect sets + must-equality abstract interpretation + call-graph reachability",
       "DESIGN.md section 4 C11")
@@ -143,7 +143,7 @@ claim('C20', 'other',
       "accessor / iteration / emplace shapes. C20.e: for every capacity 1..255 and every index below it, bit-provenance abstract "
       "interpretation of set(i)/clear(i)/get(i)/set()/clear()/&= shows each operation refines the set-of-integers model bit by bit "
       "and keeps the padding zero -- with the invariant, a simulation argument over every operation sequence. Element values of "
-      "the fixed/growable arrays over sequences are NOT decided (accessor/iteration shapes only).",
+      "the fixed/growable arrays over sequences are NOT decided (accessor/iteration shapes only); per-operation effect summaries of the arrays and their iterators in the offset domain (C20.c) and type-level byte capacities for every N <= 255 (C20.f).",
       "A shape that is not recognised is analysis-broken (exit 2) unless the semantic rule C20.e decides that operation, in which case "
       "the shape rule steps aside.",
       "bit-provenance abstract interpretation (exhaustive over capacity x index) + invariant classification + loop-extent rules + sibling agreement",
@@ -154,7 +154,7 @@ claim('C08', 'other',
       "is active, firing only under the success test of the same iterator and with the task origin as caller, remove after fire, "
       "exactly-once success consumption, deferred consumption after the scan; who-may-call and position of the plan step; the leaf "
       "status mapping on its truth table, maxima for the status operators; exhaustive comparison-domain evaluation of the scan's "
-      "activity predicate (origin 0 included); sibling agreement of the two specialisations.",
+      "activity predicate (origin 0 included); sibling agreement of the two specialisations (also as call sequences, C08.f); on effect summaries succeed(id)/fail(id) set exactly the bit of id and the cycle result, the parameterless forms report for the calling state (C08.h); clearTaskStatus clears both bits of its id unconditionally (C08.e); the plan-exists gate is set by append and cleared by the full reset only (C08.g) and the per-cycle status is reset after the plan step on every path (C08.i).",
       "The order in which tasks are visited relies on the plan list (C10 residue). Assumes A1-A3.",
       "CFG dominance / control-dependence rules + comparison-domain evaluation + sibling agreement",
       "DESIGN.md section 4 C08")
@@ -165,7 +165,7 @@ claim('C09', 'other',
       "is gated by planExists whose only writers are append (true) and clear (false); definite initialisation of every scalar "
       "member makes the outcome independent of the memory the instance is built in; failure priority table; the per-cycle status "
       "accumulators are reset on every path after the plan step; PlanDataT::clear(), deactivation and load definitely reset the whole "
-      "plan state (no task, report or plan-exists flag survives).",
+      "plan state (no task, report or plan-exists flag survives; PlanT::clear decided path-complete on effect summaries, C09.a); what a status report writes is decided on effect summaries (C09.g).",
       "Assumes A1-A3.",
       "CFG control-dependence rules + who-may-call + definite-initialisation rule + must-write analysis (whole-array loops write every element)",
       "DESIGN.md section 4 C09")
@@ -175,7 +175,7 @@ claim('C10', 'other',
       "nothing written, INVALID returned; recycle / grow by one inside the array / last slot), remove a push; PlanT::linkTask "
       "appends at the tail, PlanT::remove unlinks exactly the given node in all four neighbour situations and releases its slot; "
       "the three plan iterators cache the successor before the current task can be removed, advance to it and agree; capacity "
-      "tests in append. Integrity of the intrusive lists over every history and capacity (the inductive invariant the per-operation "
+      "tests in append; the configured task capacity survives every order of the configuration setters (C10.h, type-level). Integrity of the intrusive lists over every history and capacity (the inductive invariant the per-operation "
       "facts would have to be composed with) is NOT decided.",
       "Residue: list shape invariant over histories (relational shape analysis or state enumeration = another family). The "
       "summaries assume a node is never its own neighbour (that invariant).",
@@ -210,7 +210,7 @@ claim('C16', 'other',
       "code; for states that define the callback the selected log() overload records unconditionally; request writers, "
       "cancellations and status reports log exactly their own arguments once; the logger slot only ever guards a single record "
       "call with side-effect-free arguments; all function bodies are identical with logging off / interface / verbose after "
-      "erasing exactly those statements.",
+      "erasing exactly those statements; the set of records a wrapper can reach is computed through helper calls (reached_records), so extracted helpers do not change the verdict.",
       "Assumes the user's logger implementation does not call back into the machine (A2).",
       "CFG order rules + argument agreement + effect rule + differential comparison of extracted bodies",
       "DESIGN.md section 4 C16")
@@ -219,7 +219,7 @@ claim('C18', 'other',
       "Allocation-freedom from the AST (placement new only, no delete, allowed externals) cross-checked on the undefined symbols "
       "of compiled witness objects; payload/member alignment from the record layout; definite initialisation; constant or locally "
       "bounded shift amounts; positive extents; reinterpret_cast only on payload storage; interval reasoning on locally guarded "
-      "subscripts. Absence of out-of-bounds accesses for all histories is NOT decided (unguarded subscripts are counted as 'no verdict'). The byte storage behind every bit container has ceil(N/8) bytes for every N <= 255 (exhaustive type-level unit).",
+      "subscripts. Absence of out-of-bounds accesses for all histories is NOT decided (unguarded subscripts are counted as 'no verdict'). The byte storage behind every bit container has ceil(N/8) bytes for every N <= 255 (exhaustive type-level unit, C18.e). The task pool's slot indices stay inside its array by the per-operation vacant-list summaries (C18.f = C10.a/c) and every bit-container operation addresses only storage the container owns, for every capacity 1..255 and index (C18.g = the C20.e refinement).",
       "Residue: value ranges of indices kept by data-structure invariants.",
       "AST effect rules + object symbol table + record layout + local interval analysis",
       "DESIGN.md section 4 C18")
